@@ -3,6 +3,7 @@ package value
 import (
 	"context"
 	"fmt"
+	"math"
 
 	"github.com/smarthome-go/homescript/v3/homescript/errors"
 )
@@ -54,4 +55,23 @@ func (self ValueInt) Clone() *Value {
 func NewValueInt(inner int64) *Value {
 	val := Value(ValueInt{Inner: inner})
 	return &val
+}
+
+// Integer exponentiation with int64 wrap-around semantics (like `*`).
+// Negative exponents keep the previous behavior of going through float64.
+func IntPow(base int64, exp int64) int64 {
+	if exp < 0 {
+		return int64(math.Pow(float64(base), float64(exp)))
+	}
+
+	res := int64(1)
+	for exp > 0 {
+		if exp&1 == 1 {
+			res *= base
+		}
+		base *= base
+		exp >>= 1
+	}
+
+	return res
 }
